@@ -877,6 +877,8 @@ def cases(ctx):
         for fmt in SUPPORTED[ty]:
             if fmt not in INHOUSE:
                 continue
+            if quick and rng.random() < .5:      # quick tier: about half of the (type, format) pairs per seed (cost: the model's
+                continue                         # edge set is a list); the thorough tier does them all, at three sizes
             for n in ([170] if quick else [170, 230, 520]):
                 if ty == "bipartite":
                     l, r = n - 20, n + 11
